@@ -339,24 +339,24 @@ fn check_case(rep: &mut Reporter, case: &Case) {
 // ---------------------------------------------------------------------------------------------
 // workload
 
-/// All response sequences over keys {0, 1} with at most `max` responses per key (each Ok or Err).
-fn sequences(max: usize) -> Vec<Vec<(i64, bool)>> {
-    fn go(cur: &mut Vec<(i64, bool)>, left: [usize; 2], out: &mut Vec<Vec<(i64, bool)>>) {
+/// All response sequences over keys 0..nkeys with at most `max` responses per key (each Ok or Err).
+fn sequences(max: usize, nkeys: usize) -> Vec<Vec<(i64, bool)>> {
+    fn go(cur: &mut Vec<(i64, bool)>, left: &mut Vec<usize>, out: &mut Vec<Vec<(i64, bool)>>) {
         out.push(cur.clone());
-        for k in 0..2usize {
+        for k in 0..left.len() {
             if left[k] > 0 {
                 for ok in [true, false] {
                     cur.push((k as i64, ok));
-                    let mut l = left;
-                    l[k] -= 1;
-                    go(cur, l, out);
+                    left[k] -= 1;
+                    go(cur, left, out);
+                    left[k] += 1;
                     cur.pop();
                 }
             }
         }
     }
     let mut out = vec![];
-    go(&mut vec![], [max, max], &mut out);
+    go(&mut vec![], &mut vec![max; nkeys], &mut out);
     out
 }
 
@@ -405,7 +405,9 @@ pub fn run(args: &Args) {
     // with an empty tick between chunks.
         if args.tier != Tier::Miri {
         for (min, max) in MINMAX {
-            for seq in sequences(max) {
+            // thorough tier: three keys while the sequences stay short (max <= 2)
+            let nkeys = if args.tier == Tier::Thorough && max <= 2 { 3 } else { 2 };
+            for seq in sequences(max, nkeys) {
                 for comp in hv_common::compositions(seq.len()) {
                     for gap in 0..2 {
                         if gap == 1 && comp.len() < 2 {
@@ -497,7 +499,7 @@ pub fn run(args: &Args) {
     }
     rep.finish(
         "hydro_std collect_quorum + collect_quorum_with_response (one generated flow per (min,max), 1<=min<=max<=3) \
-         and join_responses, compiled by generate_embedded. (A) every response sequence over keys {0,1} with <= max \
+         and join_responses, compiled by generate_embedded. (A) every response sequence over keys {0,1} (thorough: {0,1,2} when max <= 2) with <= max \
          responses per key (Ok/Err each), under every \
          composition into ticks, without and with an empty tick between chunks; (B) random sequences over 2-5 keys \
          in random partitions; (C) join_responses: every placement of request / response over 3 keys x 3 ticks \
